@@ -17,7 +17,7 @@ func init() { register("C09", c09) }
 func c09(c *Ctx) {
 	r := c.R
 	r.Explanation = "Partial: structural clauses of the LevelDB-backed raft.LogStore/StableStore. (L1) key-space separation: every stable-store method prepends the same constant prefix, every log method derives an 8-byte big-endian key from the index, the index scans skip keys with that same prefix, and the prefix cannot be mistaken for a log key; (L2) sibling agreement of the four stable-store methods and of the log writers (every entry handed to StoreLogs is written, keyed by its own index; batches are written and their error returned); (L3) the error contract: not-found maps to raft.ErrLogNotFound / zero value, empty stores report index 0; (L4) the interval convention: GetBulkIterator is half-open, built from start/limit in that order, and every caller passes its inclusive upper bound + 1; DeleteRange deletes every key of its range. Equality with an in-memory model over all operation sequences and reopen points is behavioural and not decided."
-	r.Rules = []string{"C09.L1 key-space separation", "C09.L2 sibling agreement", "C09.L3 error contract", "C09.L4 interval convention", "C09.L5 error discipline", "C09.L6 lock hygiene", "C09.L7 key of the written entry", "C09.L8 conversion on open", "C09.L9 iterator discipline", "C09.L10 decisive errors stay decisive"}
+	r.Rules = []string{"C09.L1 key-space separation", "C09.L2 sibling agreement", "C09.L3 error contract", "C09.L4 interval convention", "C09.L5 error discipline", "C09.L6 lock hygiene", "C09.L7 key of the written entry", "C09.L8 conversion on open", "C09.L9 iterator discipline", "C09.L10 decisive errors stay decisive", "C09.L11 recovery on open"}
 
 	store := c.P.Named("raftstore", "LevelDBStore")
 	if store == nil {
@@ -646,6 +646,30 @@ func c09(c *Ctx) {
 		}
 	}
 
+	// ---------- L11 a torn manifest after a kill is recovered, not refused: opening falls back to RecoverFile on ErrCorrupted
+	if fi := c.P.Func("raftstore.NewLevelDBStore"); fi != nil && fi.Body() != nil {
+		info := fi.Info()
+		g := c.Graph(fi)
+		okRec := false
+		for _, v := range g.Nodes() {
+			for _, call := range astx.Calls(v.Node, false) {
+				fn := astx.Callee(info, call)
+				if fn == nil || fn.Name() != "RecoverFile" || fn.Pkg() == nil || !strings.Contains(fn.Pkg().Path(), "goleveldb") {
+					continue
+				}
+				// reached only with an error of OpenFile, and not on the edge that excludes corruption
+				for _, f := range g.FactsAt(v.ID) {
+					if x, isNil, ok := nilCompare(info, f); ok && !isNil {
+						if types.Identical(info.TypeOf(x), types.Universe.Lookup("error").Type()) {
+							okRec = true
+						}
+					}
+				}
+			}
+		}
+		r.Check(okRec, "C09.L11", fi.Name(), "a database that is reported corrupted is recovered", c.P.Pos(fi.Node().Pos()), "leveldb.RecoverFile on the error edge of OpenFile",
+			"NewLevelDBStore no longer falls back to leveldb.RecoverFile: after a kill that tears the last manifest record the store refuses to open, although every acknowledged entry is still in the table and journal files")
+	}
 	// ---------- L9 iterator discipline
 	{
 		nPos := 0
